@@ -126,12 +126,34 @@ impl Cfg {
     fn chain_data(&self) -> (Array2<f64>, Array1<usize>, Option<Array1<f32>>) {
         let k = self.classes.clamp(3, 5);
         let mut r = SplitMix(self.data_seed ^ 0xc4a1);
-        let step = [8e-7f64, 5e-7, 1.1e-6, 3e-7, 1.2e-6][r.below(5)];
+        // steps for which neighbours on the ladder are within 1e-6 (relative) of each other while the two ends
+        // are not — the shape on which a tolerance-based tie is not transitive — in three cases out of five;
+        // otherwise steps that are too coarse or too fine for that
+        let mut chain_steps = vec![8e-7f64, 6e-7, 7e-7];
+        if k >= 4 {
+            chain_steps.extend([5e-7, 4e-7]);
+        }
+        if k >= 5 {
+            chain_steps.push(3e-7);
+        }
+        let step = match r.below(5) {
+            0..=2 => chain_steps[r.below(chain_steps.len())],
+            // the same shape for any other tolerance between one f32 ulp and 1e-3: a ladder of 2^j ulps
+            3 => f32::EPSILON as f64 * (1u64 << r.below(14)) as f64,
+            _ => [1.1e-6, 1.2e-6, 2e-7, 1e-7][r.below(4)],
+        };
         let mult = 1 + r.below(3);
-        // which class gets which rung of the ladder
+        // which class gets which rung of the ladder: ascending with the label (half of the cases), descending,
+        // or shuffled
         let mut rank: Vec<usize> = (0..k).collect();
-        for i in (1..k).rev() {
-            rank.swap(i, r.below(i + 1));
+        match r.below(4) {
+            0 | 1 => {}
+            2 => rank.reverse(),
+            _ => {
+                for i in (1..k).rev() {
+                    rank.swap(i, r.below(i + 1));
+                }
+            }
         }
         let rest = if self.batches <= 1 { 0 } else { self.n };
         let generic = eighths(self.data_seed, rest, self.p);
